@@ -520,7 +520,31 @@ def sc_sibling_cc(r):
     return ops
 
 
-SCENARIOS = [sc_replace_cc, sc_stale_fetch, sc_dual_exhaust, sc_faults, sc_cc_retry, sc_restart, sc_cursor, sc_labels, sc_service, sc_preset, sc_terminating_overlap, sc_dual_blocked, sc_bootstrap_unfinalized, sc_replaced_node, sc_sibling_cc]
+def sc_service_release(r):
+    """a node holds a pod CIDR inside a service range -- assigned from a ClusterCIDR created after start-up (not filtered),
+    or before the service range was configured -- and is deleted after a restart: the release must not make the blocks
+    of the service range assignable again (D22)"""
+    sel, good, bad = _rng_sel_and_labels(r)
+    a, l = r.choice([(0x0a000000, 26), (0xc0a80000, 26), (0x0a000100, 27)])
+    hb = r.choice([3, 4, 4])
+    svc = tok4(a, r.choice([32 - hb, 32 - hb - 1, 32 - hb + 1]))
+    cc = "cc+ c1 %s - %d %s - 1 1" % (tok4(a, l), hb, sel)
+    if r.random() < 0.5:      # ClusterCIDR created after start-up, service range configured from the beginning
+        ops = ["construct %s - -" % svc, "start", cc, "dc", "pc ok", "dc", "pc ok"]
+    else:                     # service range configured at the restart only
+        ops = [cc, "construct - - -", "start", "pc ok", "dc", "pc ok"]
+    k = r.choice([1, 2, 3])
+    for i in range(1, k + 1):
+        ops += ["n+ n%d %s -" % (i, good), "dn", "pn ok", "dn"]
+    ops += ["crash", "construct %s - -" % svc, "start", "pc ok"] + ["pn ok"] * k
+    for i in range(1, k + 1):
+        ops += ["n- n%d" % i] + r.choice([["dn", "pn ok"], ["nd n%d" % i, "dn", "dn", "pn ok"], ["dn"]])
+    for i in range(k + 1, k + 4):
+        ops += ["n+ n%d %s -" % (i, good), "dn", "pn ok"]
+    return ops
+
+
+SCENARIOS = [sc_replace_cc, sc_stale_fetch, sc_dual_exhaust, sc_faults, sc_cc_retry, sc_restart, sc_cursor, sc_labels, sc_service, sc_preset, sc_terminating_overlap, sc_dual_blocked, sc_bootstrap_unfinalized, sc_replaced_node, sc_sibling_cc, sc_service_release]
 
 
 def noise_op(r):
